@@ -55,6 +55,15 @@ def setup(ctx):
             return Opaque("np.asarray result")
 
     cfg.module_overrides["numpy"] = NP
+
+    # a dtype is a symbolic id; the attributes of a dtype object are uninterpreted functions of the id: two dtypes with the same scalar type /
+    # kind / item size need not be the same dtype (byte order, C-type aliases)
+    def dtype_attr(interp_, e, name):
+        if z3.is_int(e) and name in ("type", "kind", "itemsize", "char", "name", "byteorder", "num"):
+            return z3.Function(f"DTYPE_{name}", z3.IntSort(), z3.IntSort())(e)
+        return None
+
+    cfg.expr_attr_hook = dtype_attr
     interp = Interp(ctx, cfg)
     T = interp.global_lookup(interp.module(TB), "Tensor")
 
